@@ -899,4 +899,3 @@ func (w *world) checkExpo(prop, where, key string, cum point, deltas []point, ze
 		}
 	}
 }
-
